@@ -79,16 +79,51 @@ pub struct Analysis {
   /// Tasks whose top-down validation had already met an inconsistent / erroneous dependency (so that validation must
   /// stop and the task must be re-executed, replacing its record) and that had not started executing when the session ended.
   pub incons_open: BTreeSet<Tid>,
+  /// Tasks all of whose recorded dependencies were checked and found consistent in this segment (pie then holds them
+  /// as consistent for the rest of the session, also when the task that required them was aborted later).
+  pub pass_complete: BTreeSet<Tid>,
 }
 
 #[derive(Clone, Debug)]
 enum SessionKind { TopDown(Vec<Tid>), BottomUp { report: Vec<usize>, complete: bool, then_require: Vec<Tid>, pre_require: Vec<Tid>, shape: u8 } }
 
+/// One segment of a pie session: the builds up to and including one that aborted, or up to the end of the session.
+/// Sessions that are not continued after an abort have exactly one segment.
 struct SessionResult {
+  kind: SessionKind,
   start: usize,
+  end: usize,
   abort: Option<Abort>,
   roots_out: Vec<(Tid, Out)>,
   check_errors: Vec<String>,
+}
+
+/// What earlier segments of the same pie session established (pie keeps it in the session's `consistent` set).
+#[derive(Default)]
+struct Carry {
+  validated: BTreeSet<Tid>,
+  completed: BTreeSet<Tid>,
+  /// The session began with a bottom-up build that no property claims (after an abort, or after a partial top-down
+  /// build left requirers stale: recorded finding); what it marked consistent stays so for the rest of the session.
+  unclaimed: bool,
+  /// A build of this session that aborted had modified a resource on which a task depends that the session already
+  /// holds as consistent (only possible with a diagnosed hidden dependency / overlap, i.e. an ill-formed program): the
+  /// session goes on reusing that task, which no property forbids (a new session would validate it again).
+  tainted: bool,
+}
+
+struct SegBuilder { segs: Vec<SessionResult>, kind: SessionKind, start: usize, roots_out: Vec<(Tid, Out)> }
+impl SegBuilder {
+  fn add_root(&mut self, t: Tid) { match &mut self.kind { SessionKind::TopDown(r) => r.push(t), SessionKind::BottomUp { then_require, .. } => then_require.push(t) } }
+  fn close(&mut self, abort: Option<PanicInfo>, last: bool) {
+    let end = with_sim(|s| s.log.len());
+    let kind = std::mem::replace(&mut self.kind, SessionKind::TopDown(vec![]));
+    self.segs.push(SessionResult { kind, start: self.start, end, abort: abort.map(|info| Abort { kind: classify(&info), info }), roots_out: std::mem::take(&mut self.roots_out), check_errors: vec![] });
+    if !last {
+      // The caller caught the abort and goes on using the same session.
+      self.start = with_sim(|s| { s.op_stack.clear(); s.exec_stack.clear(); s.log.push(Ev::Continue); s.log.len() });
+    }
+  }
 }
 
 pub struct Runner<'a> {
@@ -237,9 +272,9 @@ impl<'a> Runner<'a> {
       match step {
         Step::Change { res, val } => { if *res < self.shadow.len() { self.external_set(*res, *val); self.stats.hit("ext_change"); } }
         Step::Touch { res } => { if *res < self.shadow.len() { let v = self.shadow[*res]; self.external_set(*res, v); self.stats.hit("ext_touch"); } }
-        Step::TopDown { roots } => {
+        Step::TopDown { roots, keep_going } => {
           let roots: Vec<Tid> = roots.iter().copied().filter(|t| *t < self.prog.tasks.len()).collect();
-          let returned = self.session(i, SessionKind::TopDown(roots.clone()), &fault, false);
+          let returned = self.session_kg(i, SessionKind::TopDown(roots.clone()), &fault, false, *keep_going);
           self.last_td = if returned { Some(roots) } else { None };
         }
         Step::Repeat => {
@@ -252,14 +287,14 @@ impl<'a> Runner<'a> {
           self.session(i, SessionKind::TopDown(roots), &fault, false);
           self.last_td = None;
         }
-        Step::BottomUp { report, then_require, pre_require, shape } => {
+        Step::BottomUp { report, then_require, pre_require, shape, keep_going } => {
           let (rep, complete) = match report {
             None => (self.changed.iter().copied().collect::<Vec<_>>(), !self.abort_dirty),
             Some(r) => { let r: Vec<usize> = r.iter().copied().filter(|x| *x < self.shadow.len()).collect(); let complete = !self.abort_dirty && self.changed.iter().all(|c| r.contains(c)); (r, complete) }
           };
           let then_require: Vec<Tid> = then_require.iter().copied().filter(|t| *t < self.prog.tasks.len()).collect();
           let pre_require: Vec<Tid> = pre_require.iter().copied().filter(|t| *t < self.prog.tasks.len()).collect();
-          self.session(i, SessionKind::BottomUp { report: rep, complete, then_require, pre_require, shape: *shape }, &fault, false);
+          self.session_kg(i, SessionKind::BottomUp { report: rep, complete, then_require, pre_require, shape: *shape }, &fault, false, *keep_going);
           self.last_td = None;
         }
       }
@@ -291,68 +326,92 @@ impl<'a> Runner<'a> {
     });
   }
 
-  fn execute_session(&mut self, kind: &SessionKind, fault: &StepFault) -> SessionResult {
+  fn execute_session(&mut self, kind: &SessionKind, fault: &StepFault, keep_going: bool) -> Vec<SessionResult> {
     self.arm(fault);
     let start = with_sim(|s| { s.log.push(Ev::SessionStart(self.session_no)); s.log.len() });
     let prog = self.prog.clone();
     let pie = &mut self.pie;
-    let mut roots_out = vec![];
+    let first_kind = match kind {
+      SessionKind::TopDown(_) => SessionKind::TopDown(vec![]),
+      SessionKind::BottomUp { report, complete, pre_require, shape, .. } => SessionKind::BottomUp { report: report.clone(), complete: *complete, then_require: vec![], pre_require: pre_require.clone(), shape: *shape },
+    };
+    let mut sb = SegBuilder { segs: vec![], kind: first_kind, start, roots_out: vec![] };
     let mut check_errors = vec![];
     let r = catch(|| {
       let mut session = pie.new_session();
+      // One `Session::require`; with `keep_going` an abort is caught here and the same session is used further.
+      fn require_one(session: &mut pie::Session, prog: &Program, t: Tid, keep_going: bool, sb: &mut SegBuilder) {
+        sb.add_root(t);
+        log(Ev::RootStart { t });
+        let key = prog.tasks[t].key;
+        if keep_going {
+          match catch(|| require_root(session, key)) {
+            Ok(out) => { log(Ev::RootEnd { t, out }); sb.roots_out.push((t, out)); }
+            Err(info) => { sb.close(Some(info), false); }
+          }
+        } else {
+          let out = require_root(session, key);
+          log(Ev::RootEnd { t, out });
+          sb.roots_out.push((t, out));
+        }
+      }
       match kind {
         SessionKind::TopDown(roots) => {
-          for t in roots.iter() {
-            log(Ev::RootStart { t: *t });
-            let out = require_root(&mut session, prog.tasks[*t].key);
-            log(Ev::RootEnd { t: *t, out });
-            roots_out.push((*t, out));
-          }
+          for t in roots.iter() { require_one(&mut session, &prog, *t, keep_going, &mut sb); }
         }
         SessionKind::BottomUp { report, then_require, pre_require, shape, .. } => {
-          for t in pre_require.iter() {
-            log(Ev::RootStart { t: *t });
-            let out = require_root(&mut session, prog.tasks[*t].key);
-            log(Ev::RootEnd { t: *t, out });
-            roots_out.push((*t, out));
-          }
-          // Resources that tasks wrote in the top-down phase of this session have changed as well: they are reported.
-          let mut report: Vec<usize> = report.clone();
-          if !pre_require.is_empty() {
-            let written: Vec<usize> = with_sim(|s| s.log[start..].iter().filter_map(|e| if let Ev::ResSet { res, .. } = e { prog.res_index(*res) } else { None }).collect());
-            for r in written { if !report.contains(&r) { report.push(r); } }
-          }
-          if shape & 1 != 0 {
-            log(Ev::BuStart);
-            {
-              let mut bu = session.create_bottom_up_build();
-              for r in report.iter() { schedule(&mut bu, prog.resources[*r]); }
+          let mut bu_part = |session: &mut pie::Session, roots_out: &mut Vec<(Tid, Out)>| {
+            for t in pre_require.iter() {
+              log(Ev::RootStart { t: *t });
+              let out = require_root(session, prog.tasks[*t].key);
+              log(Ev::RootEnd { t: *t, out });
+              roots_out.push((*t, out));
             }
-            log(Ev::BuDropped);
-          }
-          for _build in 0..(if shape & 2 != 0 { 2 } else { 1 }) {
-            log(Ev::BuStart);
-            {
-              let mut bu = session.create_bottom_up_build();
-              for r in report.iter() { schedule(&mut bu, prog.resources[*r]); }
-              log(Ev::BuScheduled);
-              bu.update_affected_tasks();
+            // Resources that tasks wrote in the top-down phase of this session have changed as well: they are reported.
+            let mut report: Vec<usize> = report.clone();
+            if !pre_require.is_empty() {
+              let written: Vec<usize> = with_sim(|s| s.log[start..].iter().filter_map(|e| if let Ev::ResSet { res, .. } = e { prog.res_index(*res) } else { None }).collect());
+              for r in written { if !report.contains(&r) { report.push(r); } }
             }
-            log(Ev::BuEnd);
+            if shape & 1 != 0 {
+              log(Ev::BuStart);
+              {
+                let mut bu = session.create_bottom_up_build();
+                for r in report.iter() { schedule(&mut bu, prog.resources[*r]); }
+              }
+              log(Ev::BuDropped);
+            }
+            for _build in 0..(if shape & 2 != 0 { 2 } else { 1 }) {
+              log(Ev::BuStart);
+              {
+                let mut bu = session.create_bottom_up_build();
+                for r in report.iter() { schedule(&mut bu, prog.resources[*r]); }
+                log(Ev::BuScheduled);
+                bu.update_affected_tasks();
+              }
+              log(Ev::BuEnd);
+            }
+          };
+          if keep_going {
+            let mut ro = vec![];
+            let res = catch(|| bu_part(&mut session, &mut ro));
+            sb.roots_out.append(&mut ro);
+            if let Err(info) = res { sb.close(Some(info), false); }
+          } else {
+            let mut ro = vec![];
+            bu_part(&mut session, &mut ro);
+            sb.roots_out.append(&mut ro);
           }
-          for t in then_require.iter() {
-            log(Ev::RootStart { t: *t });
-            let out = require_root(&mut session, prog.tasks[*t].key);
-            log(Ev::RootEnd { t: *t, out });
-            roots_out.push((*t, out));
-          }
+          for t in then_require.iter() { require_one(&mut session, &prog, *t, keep_going, &mut sb); }
         }
       }
       check_errors = session.dependency_check_errors().map(|e| e.to_string()).collect();
     });
     with_sim(|s| { s.faults = FaultPlan::default(); });
-    let abort = r.err().map(|info| Abort { kind: classify(&info), info });
-    SessionResult { start, abort, roots_out, check_errors }
+    sb.close(r.err(), true);
+    let mut segs = sb.segs;
+    if let Some(l) = segs.last_mut() { l.check_errors = check_errors; }
+    segs
   }
 
   /// Reads the real world and compares it with the expected world. `written_by_clean`: resources that the clean build
@@ -362,15 +421,42 @@ impl<'a> Runner<'a> {
     prog.resources.iter().map(|k| res_get(&mut self.pie, *k).val).collect()
   }
 
-  fn session(&mut self, step: usize, kind: SessionKind, fault: &StepFault, is_repeat: bool) -> bool {
+  fn session(&mut self, step: usize, kind: SessionKind, fault: &StepFault, is_repeat: bool) -> bool { self.session_kg(step, kind, fault, is_repeat, false) }
+
+  /// Runs one pie session and evaluates it segment by segment (`keep_going`: aborted builds are caught inside the
+  /// session and the same session is used for the remaining builds).
+  fn session_kg(&mut self, step: usize, kind: SessionKind, fault: &StepFault, is_repeat: bool, keep_going: bool) -> bool {
+    let segs = self.execute_session(&kind, fault, keep_going);
+    let n = segs.len();
+    if n > 1 { self.stats.hit("probe_session_continued_after_abort"); }
+    let mut carry = Carry::default();
+    let mut all_returned = true;
+    for (k, seg) in segs.into_iter().enumerate() {
+      if self.vs.iter().any(|v| v.concerns(self.prop)) || self.harness_error.is_some() { break; }
+      let returned = self.evaluate(step, seg, fault, is_repeat, k + 1 == n, &mut carry);
+      all_returned &= returned;
+    }
+    all_returned
+  }
+
+  /// The world after a segment: the real resources when the session is over, else what the task-side log of writes gives.
+  fn world_after(&mut self, last: bool, before: &[Option<Val>], slice: &[Ev]) -> Vec<Option<Val>> {
+    if last { return self.real_world(); }
     let prog = self.prog.clone();
+    let mut w = before.to_vec();
+    for e in slice.iter() { if let Ev::ResSet { res, new, .. } = e { if let Some(i) = prog.res_index(*res) { w[i] = *new; } } }
+    w
+  }
+
+  fn evaluate(&mut self, step: usize, res: SessionResult, fault: &StepFault, is_repeat: bool, last: bool, carry: &mut Carry) -> bool {
+    let prog = self.prog.clone();
+    let kind = res.kind.clone();
     let before = self.shadow.clone();
     let fault_free = fault.is_none();
     let dirty_at_start = self.abort_dirty;
     let stale_before = self.td_partial_exec.clone();
-    let res = self.execute_session(&kind, fault);
     self.session_no += 1;
-    let slice: Vec<Ev> = with_sim(|s| s.log[res.start..].to_vec());
+    let slice: Vec<Ev> = with_sim(|s| s.log[res.start..res.end].to_vec());
     self.stats.hit(match &kind { SessionKind::TopDown(_) => "sessions_top_down", SessionKind::BottomUp { .. } => "sessions_bottom_up" });
 
     // Roots become known even if the session aborts.
@@ -406,10 +492,46 @@ impl<'a> Runner<'a> {
         }
       }
     }
-    let analysis = self.analyse(step, &kind, &slice, &res, is_repeat, fault_free);
+    let analysis = self.analyse(step, &kind, &slice, &res, is_repeat, fault_free, last, carry);
+    // What pie's session now holds as consistent.
+    for t in analysis.validated_ok.iter().chain(analysis.pass_complete.iter()) { carry.validated.insert(*t); }
+    for t in analysis.executed.iter() {
+      if self.ledger[*t].as_ref().map(|e| e.completed).unwrap_or(false) {
+        carry.validated.insert(*t);
+        // A top-down execution that returned is marked consistent right away; a bottom-up execution only after its
+        // dependents were checked (an abort in between leaves it unmarked, so it may legitimately run again).
+        let n = self.ledger[*t].as_ref().map(|e| e.n).unwrap_or(0);
+        if slice.iter().any(|e| matches!(e, Ev::ExecStart { t: x, n: m, bottom_up: false } if x == t && *m == n)) { carry.completed.insert(*t); }
+      }
+    }
+
+    let unclaimed_here = matches!(kind, SessionKind::BottomUp { .. }) && (dirty_at_start || !stale_before.is_empty());
+    let carried_unclaimed = carry.unclaimed || carry.tainted;
+    let tainted_before = carry.tainted;
+    if unclaimed_here { carry.unclaimed = true; }
+    if res.abort.is_some() {
+      // Writes of executions that did not complete (the writes of completed executions are what their records say).
+      let mut written: Vec<ResKey> = vec![];
+      let mut writer: Option<Tid> = None;
+      for e in slice.iter() {
+        match e {
+          Ev::OpStart { t, op: OpK::Write | OpK::WriteVia, .. } => { writer = Some(*t); }
+          Ev::ResSet { res, .. } => { if let Some(w) = writer { if !self.ledger[w].as_ref().map(|e| e.completed).unwrap_or(false) { written.push(*res); } } }
+          _ => {}
+        }
+      }
+      // Everything that a task held as consistent (transitively) requires was validated with it.
+      let mut held: BTreeSet<Tid> = BTreeSet::new();
+      let mut stack: Vec<Tid> = carry.validated.iter().copied().collect();
+      while let Some(t) = stack.pop() {
+        if !held.insert(t) { continue; }
+        if let Some(e) = self.ledger[t].as_ref() { if e.completed { for d in e.deps.iter() { if let Target::Task(u) = d.target { stack.push(u); } } } }
+      }
+      if !written.is_empty() && held.iter().any(|t| self.ledger[*t].as_ref().map(|e| e.completed && e.deps.iter().any(|d| matches!(d.target, Target::Res(r) if written.contains(&r)))).unwrap_or(false)) { carry.tainted = true; self.stats.hit("probe_aborted_build_modified_input_of_consistent_task"); if std::env::var("VERIF_DEBUG_TAINT").is_ok() { eprintln!("TAINT step={step} written={:?} held={:?} validated={:?}", written, held, carry.validated); } }
+    }
 
     // Abort handling.
-    let store_differs = if res.abort.is_some() { self.check_store_dump(step, true) } else { false };
+    let store_differs = if res.abort.is_some() && last { self.check_store_dump(step, true) } else { false };
     if let Some(abort) = &res.abort {
       self.aborted_earlier = self.aborted_before;
       self.aborted_before = true;
@@ -417,12 +539,14 @@ impl<'a> Runner<'a> {
       // The world must hold exactly the writes that the task-side log says happened.
       let mut expect = before.clone();
       for e in slice.iter() { if let Ev::ResSet { res, new, .. } = e { if let Some(i) = prog.res_index(*res) { expect[i] = *new; } } }
-      let real = self.real_world();
+      let real = self.world_after(last, &before, &slice);
       if real != expect { self.viol(&["C19"], "abort-world", step, format!("after the aborted build the resources hold {:?}, the writes that happened give {:?}", real, expect)); }
       self.stats.hit(&format!("abort_{:?}", abort.kind));
       fnv(&mut self.trace, 0xAB0 + abort.kind.clone() as u64);
       let injected_errors = with_sim(|s| s.errors_injected.len());
-      if injected_errors > 0 && abort.kind != AbortKind::InjectedCrash {
+      // (In a well-formed program nothing else can abort a build, unless an earlier abort left partial records behind:
+      // what those cause is judged under C19 / C20.)
+      if injected_errors > 0 && abort.kind != AbortKind::InjectedCrash && !self.aborted_earlier && prog.class == Class::W {
         self.viol(&["C18"], "check-error-aborted-build", step, format!("a checker error during validation aborted the build: {}", abort.info.short()));
       }
       match abort.kind {
@@ -439,18 +563,21 @@ impl<'a> Runner<'a> {
         }
         AbortKind::Cycle | AbortKind::Hidden | AbortKind::Overlap => {
           self.diag_aborts += 1;
-          self.judge_diagnostic_abort(step, abort, &analysis, &before, store_differs);
+          // In a session that goes on reusing a task whose input an aborted build of the same session modified, the
+          // tasks no longer behave as they would in a from-scratch build of the current state: nothing to compare with.
+          if tainted_before { self.stats.hit("abort_in_tainted_session_not_judged"); } else
+          { self.judge_diagnostic_abort(step, abort, &analysis, &before, &real, store_differs); }
         }
         AbortKind::Other => { self.harness_error = Some(format!("unexpected panic outside the repository: {}", abort.info.short())); }
       }
       // After an abort the real world is the truth.
-      self.shadow = self.real_world();
+      self.shadow = real;
       self.all_consistent = false;
       self.last_bu_complete = false;
       return false;
     }
 
-    let _ = self.check_store_dump(step, false);
+    if last { let _ = self.check_store_dump(step, false); }
     if self.vs.iter().any(|v| v.concerns(self.prop)) { return true; }
 
     // The session returned: from-scratch equality.
@@ -481,7 +608,7 @@ impl<'a> Runner<'a> {
     // later top-down builds) until a returning session has required all known tasks again.
     // ... and after a partial top-down session left requirers stale (recorded finding, decided by the probe oracle).
     let unclaimed_bu = matches!(kind, SessionKind::BottomUp { .. }) && (dirty_at_start || !stale_before.is_empty());
-    let tainted = unclaimed_bu || (!fault_free && (fault.read_err_at.is_some() || fault.write_err_at.is_some()));
+    let tainted = unclaimed_bu || carried_unclaimed || (!fault_free && (fault.read_err_at.is_some() || fault.write_err_at.is_some()));
     if clean.ill.is_empty() && !tainted {
       for (t, out) in res.roots_out.iter() {
         if expected.get(t) != Some(out) {
@@ -492,7 +619,7 @@ impl<'a> Runner<'a> {
         }
       }
       if check_world {
-        let real = self.real_world();
+        let real = self.world_after(last, &before, &slice);
         for r in 0..real.len() {
           let written = clean.writer_of.get(&r).copied();
           let equal = match written {
@@ -523,7 +650,7 @@ impl<'a> Runner<'a> {
       }
     }
     // The real world is the truth from here on (coarse write checkers may legitimately differ from the clean world).
-    self.shadow = self.real_world();
+    self.shadow = self.world_after(last, &before, &slice);
 
     // Bookkeeping of "all known tasks consistent".
     match &kind {
@@ -699,15 +826,15 @@ impl<'a> Runner<'a> {
   /// A build aborted with a cycle / hidden-dependency / overlapping-write diagnostic: decide whether the violation
   /// exists in the current state (fine), is explained by recorded dependencies of tasks that were not yet validated
   /// in this session (stale-edge signature: a listed known finding or a violation), or is unexplained (violation).
-  fn judge_diagnostic_abort(&mut self, step: usize, abort: &Abort, an: &Analysis, before: &[Option<Val>], store_differs: bool) {
+  fn judge_diagnostic_abort(&mut self, step: usize, abort: &Abort, an: &Analysis, before: &[Option<Val>], world_now: &[Option<Val>], store_differs: bool) {
     let prog = self.prog.clone();
-    let world = self.real_world();
+    let world = world_now.to_vec();
     let mut clean = Clean::new(&prog, world);
     let mut all: Vec<Tid> = self.known.iter().copied().collect();
     for t in an.exec_stack.iter() { if !all.contains(t) { all.push(*t); } }
     for t in all.iter() { clean.require(*t); }
     // A from-scratch build meets violations in an order that depends on the order of its roots: also try the reverse.
-    let mut clean_rev = Clean::new(&prog, self.real_world());
+    let mut clean_rev = Clean::new(&prog, world_now.to_vec());
     for t in all.iter().rev() { clean_rev.require(*t); }
     // The aborted build may itself have modified resources: the state in which it started counts as well.
     let mut clean_b = Clean::new(&prog, before.to_vec());
@@ -797,7 +924,9 @@ impl<'a> Runner<'a> {
     // required, should have been replaced first: that is an ordering failure, not a stale-edge finding.
     if cause.is_some() {
       // Only the requires that task t had recorded before this execution count for the order in which it was taken.
-      let old_first_hops: Vec<Tid> = self.prev[t].as_ref().map(|e| e.req_issued.clone()).unwrap_or_default();
+      // A task whose previous execution was aborted has no output: a bottom-up build executes it on the spot as a new
+      // task when it is required, without looking at the queue (no property claims an order for such tasks).
+      let old_first_hops: Vec<Tid> = self.prev[t].as_ref().filter(|e| e.completed).map(|e| e.req_issued.clone()).unwrap_or_default();
       let none_old2: Vec<Option<ExecRec>> = vec![None; prog.tasks.len()];
       if let Some(q) = an.pending.iter().find(|q| **q != t && old_first_hops.iter().any(|h| h == *q || (*h != t && ledger_path(&self.ledger, &none_old2, *h, **q)))) {
         let mut p2 = props.clone();
@@ -836,7 +965,7 @@ impl<'a> Runner<'a> {
   }
 
   /// Walks the log slice of one session: updates the ledger and evaluates the log-based oracles.
-  fn analyse(&mut self, step: usize, kind: &SessionKind, slice: &[Ev], res: &SessionResult, is_repeat: bool, fault_free: bool) -> Analysis {
+  fn analyse(&mut self, step: usize, kind: &SessionKind, slice: &[Ev], res: &SessionResult, is_repeat: bool, fault_free: bool, last: bool, carry: &Carry) -> Analysis {
     let prog = self.prog.clone();
     let ntasks = prog.tasks.len();
     let aborted = res.abort.is_some();
@@ -850,7 +979,7 @@ impl<'a> Runner<'a> {
     #[derive(Clone, Default)]
     struct Pass { next: usize, ended_incons: bool, started: bool, by_error: bool, checked: BTreeSet<usize> }
     let mut pass: Vec<Pass> = vec![Pass::default(); ntasks];
-    let mut validated_ok: BTreeSet<Tid> = BTreeSet::new();
+    let mut validated_ok: BTreeSet<Tid> = carry.validated.clone();
     let mut bu_reused: BTreeSet<Tid> = BTreeSet::new();
     let mut pending: BTreeMap<Tid, bool> = BTreeMap::new(); // scheduled in bottom-up phase (value: by error)
     let mut exec_stack: Vec<Tid> = vec![];
@@ -921,6 +1050,9 @@ impl<'a> Runner<'a> {
             if in_bu_phase && aborted_at_start[*t] { probes[6] = true; } else {
               v(props, "executed-twice", format!("task {t} entered execute {} times in one session", exec_count[*t]));
             }
+          }
+          if carry.completed.contains(t) {
+            v(&["C02", "C19"], "executed-twice", format!("task {t} completed an execution earlier in this session (before a build of the session aborted) and was executed again"));
           }
           if exec_stack.contains(t) {
             v(if self.aborted_before { &["C07", "C19"] } else { &["C07"] }, "cycle-reentered", format!("task {t} was entered again while it is still executing (stack {:?})", exec_stack));
@@ -1037,11 +1169,11 @@ impl<'a> Runner<'a> {
                   }
                 }
               }
-            } else if !executed.contains(&u) && !validated_ok.contains(&u) && !bu_reused.contains(&u) && !aborted {
+            } else if !executed.contains(&u) && !validated_ok.contains(&u) && !bu_reused.contains(&u) {
               let nd = self.ledger[u].as_ref().map(|e| e.deps.len()).unwrap_or(0);
               let p = &pass[u];
               if !(p.started && !p.ended_incons && p.checked.len() >= nd) && nd > 0 {
-                v(&["C01", "C09"], "reuse-without-validation", format!("task {t} got the cached output of task {u}, which was neither executed nor completely validated in this session ({} of {nd} dependencies checked)", p.next));
+                if !aborted { v(&["C01", "C09"], "reuse-without-validation", format!("task {t} got the cached output of task {u}, which was neither executed nor completely validated in this session ({} of {nd} dependencies checked)", p.next)); }
               } else { validated_ok.insert(u); }
             }
           }
@@ -1162,7 +1294,7 @@ impl<'a> Runner<'a> {
             }
             if let Target::Task(u) = info.target {
               let cur = self.ledger[u].as_ref().and_then(|e| e.out);
-              if cur != Some(now) { v(&["C09"], "check-stale-output", format!("the require dependency of task {t} on task {u} was checked against {:?} but the current output of {u} is {:?}", now, cur)); }
+              if cur != Some(now) { v(&["C09", "C15"], "check-stale-output", format!("the require dependency of task {t} on task {u} was checked against {:?} but the current output of {u} is {:?}", now, cur)); }
             }
           }
           let latest_n = self.ledger[t].as_ref().map(|e| e.n);
@@ -1202,7 +1334,7 @@ impl<'a> Runner<'a> {
             }
           }
         }
-        Ev::Trk(_) | Ev::SessionStart(_) => {}
+        Ev::Trk(_) | Ev::SessionStart(_) | Ev::Continue => {}
       }
     }
 
@@ -1279,7 +1411,7 @@ impl<'a> Runner<'a> {
       // Checker errors must be reported exactly once, in order.
       let injected: Vec<u32> = with_sim(|s| s.errors_injected.iter().map(|e| e.1).collect());
       let expected: Vec<String> = injected.iter().map(|c| format!("SimErr({c})")).collect();
-      if res.check_errors != expected {
+      if last && res.check_errors != expected {
         violations.push(Violation::new(&["C18"], "check-errors-reported", step, format!("Session::dependency_check_errors = {:?} but the checkers returned errors {:?}", res.check_errors, expected)));
       }
       if !injected.is_empty() { self.stats.add("fault_checker_error_fired", injected.len() as u64); self.errors_fired += injected.len() as u64; }
@@ -1301,12 +1433,13 @@ impl<'a> Runner<'a> {
     for vi in sig_violations.into_iter().take(1) { if self.vs.len() < 16 { self.vs.push(vi); } }
 
     // Tracker oracles.
-    self.check_tracker(step, slice, aborted);
+    self.check_tracker(step, slice, aborted, last);
     let incons_open: BTreeSet<Tid> = (0..ntasks).filter(|t| pass[*t].started && pass[*t].ended_incons && !executed.contains(t)).collect();
-    Analysis { executed, validated_ok, open_op: op_stack.last().map(|(t, op, target, _)| (*t, *op, *target)), exec_stack, pending: pending.keys().copied().collect(), incons_open }
+    let pass_complete: BTreeSet<Tid> = (0..ntasks).filter(|t| { let p = &pass[*t]; let nd = self.ledger[*t].as_ref().map(|e| e.deps.len()).unwrap_or(0); p.started && !p.ended_incons && p.checked.len() >= nd && !executed.contains(t) }).collect();
+    Analysis { pass_complete, executed, validated_ok, open_op: op_stack.last().map(|(t, op, target, _)| (*t, *op, *target)), exec_stack, pending: pending.keys().copied().collect(), incons_open }
   }
 
-  fn check_tracker(&mut self, step: usize, slice: &[Ev], aborted: bool) {
+  fn check_tracker(&mut self, step: usize, slice: &[Ev], aborted: bool, last: bool) {
     // Composite: both recorders received the identical stream.
     let (a_len, equal) = {
       let t = self.pie.tracker();
@@ -1321,8 +1454,12 @@ impl<'a> Runner<'a> {
       let msg = format!("the two children of the composite tracker received different streams (lengths {} and {}, first difference at {pos}: {:?} vs {:?})", a.len(), b.len(), a.get(pos), b.get(pos));
       self.viol(&["C17"], "composite-stream", step, msg);
     }
-    let new_events: Vec<TrkEv> = self.pie.tracker().0.events[self.trk_seen..].to_vec();
-    self.trk_seen = a_len;
+    // The tracker events of this segment: as many as the unified log holds for it (all of the rest for the last one).
+    let n_seg = slice.iter().filter(|e| matches!(e, Ev::Trk(_))).count();
+    let upto = if last { a_len } else { (self.trk_seen + n_seg).min(a_len) };
+    let new_events: Vec<TrkEv> = self.pie.tracker().0.events[self.trk_seen..upto].to_vec();
+    if last && upto - self.trk_seen != n_seg && self.vs.is_empty() { self.viol(&["C17"], "tracker-fidelity", step, format!("the recording tracker received {} events in this build, the unified log holds {n_seg}", upto - self.trk_seen)); }
+    self.trk_seen = upto;
     // Nesting.
     let mut stack: Vec<(u8, KeyR, usize)> = vec![];
     for (i, e) in new_events.iter().enumerate() {
@@ -1445,7 +1582,7 @@ impl<'a> Runner<'a> {
     if let Some(p) = problems.into_iter().next() {
       if self.vs.is_empty() { self.viol(&["C17"], "tracker-fidelity", step, p); }
     }
-    self.check_event_tracker(step, &new_events);
+    if last { self.check_event_tracker(step, &new_events); }
   }
 
   /// `EventTracker` contents and helpers against a reference scan of the recorded stream.
